@@ -15,6 +15,8 @@ JOBS = {
     "J2": ["G28", "M105 ; poll"],
     "J4": ["G1 X1", "G1 X2", "; c", "G1 X3", "G1 X4 (last)"],
     # several layers with a z-hop that returns to an earlier height (lines are appended to an already populated layer)
+    # a non-ASCII payload (LCD message): the checksum must be the one the firmware computes over the bytes it receives
+    "J9": ["M117 Héllo wörld", "G1 X1 ; fin"],
     "J8": ["G1 Z0.2", "G1 X1 E1", "G1 Z0.6", "G0 X5", "G1 Z0.2", "G1 X6 E2", "G1 Z0.4", "G1 X7 E3"],
 }
 COMMENT_RE = re.compile(r"\([^()]*\)|;.*")
@@ -220,6 +222,10 @@ def plan(tier):
                 if corrupt == (1,):
                     items.append(({**base, "line_points": False}, 1, None))
         for dialect in ("A", "B"):
+            for corrupt in ((), (0,)):
+                base = {"job": "J9", "dialect": dialect, "greeting": None, "eager": False, "corrupt": corrupt}
+                items.append(({**base, "line_points": True}, 0, None))
+        for dialect in ("A", "B"):
             for corrupt in ((), (5,)):
                 base = {"job": "J8", "dialect": dialect, "greeting": None, "eager": False, "corrupt": corrupt}
                 items.append(({**base, "line_points": True}, 0, None))
@@ -252,11 +258,11 @@ def plan(tier):
                         items.append(({**base, "line_points": True}, 0, None))
                         if len(corrupt) <= 1 and not eager:
                             items.append(({**base, "line_points": False}, 1, None))
-        for job in ("J3", "J4", "J2", "J8"):
+        for job in ("J3", "J4", "J2", "J8", "J9"):
             for dialect in ("A", "B", "C"):
                 for greeting in (None, "start"):
                     for eager in (False, True):
-                        for corrupt in fault_patterns(8 if job != "J2" else 4, 3 if job == "J3" else (1 if job == "J8" else 2)):
+                        for corrupt in fault_patterns(8 if job not in ("J2", "J9") else 4, 3 if job == "J3" else (1 if job in ("J8", "J9") else 2)):
                             base = {"job": job, "dialect": dialect, "greeting": greeting, "eager": eager, "corrupt": corrupt}
                             items.append(({**base, "line_points": True}, 0, None))
                             if len(corrupt) <= 1 and job in ("J3", "J8"):
